@@ -329,6 +329,8 @@ def split_case(draw):
     c["m"] = m
     c["k1"] = draw(st.integers(1, N - 1))  # intermediate state on the grid
     c["frac"] = draw(go.unit())  # intermediate state off the grid
+    # the public way by which the tabulation is obtained
+    c["route"] = draw(st.sampled_from(["iter", "iter", "iter-no-start", "ephemeris", "daterange", "ephem", "ephem-interpolated"]))
     return c
 
 
@@ -349,18 +351,35 @@ def check_split(case):
     worst = 0.0
     # (b) iterate with another output step over an on-grid span
     found = None
-    for p_ in orb.iter(start=mkdate(0), stop=timedelta(seconds=N * h), step=timedelta(seconds=s_out)):
+    route = case.get("route", "iter")
+    span = dict(start=mkdate(0), stop=timedelta(seconds=N * h), step=timedelta(seconds=s_out))
+    if route == "iter":
+        stream = orb.iter(**span)
+    elif route == "iter-no-start":  # the start defaults to the orbit's own date; the stop given as a date
+        stream = orb.iter(stop=mkdate(N * h * 10**6), step=timedelta(seconds=s_out))
+    elif route == "ephemeris":
+        stream = orb.ephemeris(**span)
+    elif route == "daterange":
+        from beyond.dates import Date
+
+        stream = orb.iter(dates=Date.range(mkdate(0), mkdate(N * h * 10**6), timedelta(seconds=s_out), inclusive=True))
+    elif route == "ephem":
+        stream = iter(orb.ephem(**span))
+    else:  # the tabulated ephemeris interpolated at the date (a second re-sampling: its own remainder is added)
+        eph = orb.ephem(**span)
+        stream = [eph.propagate(date)] if len(eph) >= 8 else orb.iter(**span)
+    for p_ in stream:
         if p_.date == date:
             found = pos(p_)
             break
     if found is None:
-        raise Violation("iter-missing-date", f"iter(step={s_out}s) over {N * h}s never yielded t={T}s")
+        raise Violation("iter-missing-date", f"{route}(step={s_out}s) over {N * h}s never yielded t={T}s")
     d = float(np.linalg.norm(found[:3] - direct[:3]))
     tol_b = interp * (1 if not adaptive else 1) + (0.0 if not adaptive else 2 * 10 * 1e-3 * (T / h + 8))
     worst = max(worst, d / tol_b)
     if d > tol_b:
         raise Violation("output-step", f"{case['method']} h={h}s: state at t={T}s differs by {d:.4g} m between propagate() and "
-                                       f"iter(step={s_out}s) (allowed {tol_b:.4g} m)")
+                                       f"{route}(step={s_out}s) (allowed {tol_b:.4g} m)")
     # (c) restart from an intermediate state lying on the integration grid (fixed-step methods: same grid)
     if not adaptive:
         t1 = case["k1"] * h
@@ -374,7 +393,7 @@ def check_split(case):
         if d > tol_c:
             raise Violation("split-on-grid", f"{case['method']} h={h}s: propagate({t1}s) then propagate to {T2}s differs from the "
                                              f"direct result by {d:.4g} m (allowed {tol_c:.4g} m)")
-    return dict(nt=T % h != 0, cls=label_cls(case) + [case["method"], "target-off-grid" if T % h else "target-on-grid"], ratio=worst)
+    return dict(nt=T % h != 0, cls=label_cls(case) + [case["method"], "target-off-grid" if T % h else "target-on-grid", "route:" + route], ratio=worst)
 
 
 # ---------------------------------------------------------------- re-configured propagator object
